@@ -531,6 +531,9 @@ func TestVerifC15Stress(t *testing.T) {
 	sys := c15System(t)
 	ctx := context.Background()
 	defer func() { _ = sys.Stop(ctx) }()
+	// the scripted test before this one may have left stale replies in pooled channels (that is the listed
+	// defect): start from an empty pool
+	c15DrainPools(false, true)
 	nAskers := verifEnvInt("VERIF_C15_ASKERS", 24)
 	perAsker := verifEnvInt("VERIF_C15_PER_ASKER", 120)
 	targets := []*PID{}
